@@ -134,3 +134,43 @@ def plan_C09(tier, seed):
                       "distinct_nontrivial counts distinct (history, schedule) pairs in which at least one refusal was actually injected"),
                 shards=shards, require={"c09.schedules_that_fired": 300, "c09.twin_ops_compared": 20000, "c09.failure_state_checks": 2000},
                 assumptions=ASSUME_COMMON + ["'never fails to terminate' is checked as bounded progress: at most 200 refused chunk requests inside one call (the halving retry loop legitimately needs <= 64); a wall-clock watchdog firing is inconclusive"])
+
+
+def plan_C11(tier, seed):
+    q = tier == "quick"
+    shards = []
+    n = 0
+    for ma in MAS:
+        for eng in ("debug", "release"):
+            shards.append(sh(eng, "c11", seed, n, ma=ma))
+            n += 1
+    # random histories with the try_with-heavy profile as well
+    shards += arena_shards(seed, tier, ["trywith"], 60, 600, miri_q=0, miri_t=4, asan_t=2)
+    for i in range(1 if q else 12):
+        shards.append(sh("miri", "c11", seed, i, timeout=1500, ma=MAS[(seed + i) % 5], stride=(900 if q else 300)))
+    return dict(level="exploration",
+                rule=("one evaluation = one steered case (arena parked so that exactly L bytes are left, then one failing fallible initialiser + reuse probe + follow-up ops) or one random history of the trywith profile; "
+                      "distinct = distinct (type, entry point, initialiser behaviour, bytes left, allocator refusing or not, outcome, MIN_ALIGN) tuples"),
+                shards=shards, require={"c11.rewind_new_chunk": 5000, "c11.rewind_same_chunk": 5000, "c11.reuse_probes": 20000, "c11.errors_delivered": 20000},
+                assumptions=ASSUME_COMMON)
+
+
+def plan_C12(tier, seed):
+    q = tier == "quick"
+    shards = arena_shards(seed, tier, ["allocator"], 80, 800, miri_q=1, miri_t=10, asan_t=5)
+    n = 500
+    for rep in range(1 if q else 6):
+        for ma in MAS:
+            for eng in ("debug", "release"):
+                shards.append(sh(eng, "c12diff", seed, n, ma=ma, iters=(40 if q else 300), ops=300))
+                n += 1
+    for i in range(1 if q else 6):
+        shards.append(sh("miri", "c12diff", seed, 3000 + i, timeout=1500, ma=MAS[(seed + i) % 5], iters=1, ops=(40 if q else 90)))
+    if not q:
+        for i in range(5):
+            shards.append(sh("asan", "c12diff", seed, 4000 + i, timeout=900, ma=MAS[i], iters=60, ops=300, instrumented=1))
+    return dict(level="exploration",
+                rule=("one evaluation = one random history of Allocator calls on several live blocks mixed with native arena ops (allocator profile), or one differential program "
+                      "(5 allocator_api2 Vecs + Boxes in one Bump<M> mirrored by std Vecs, 300 ops, native arena ops in between); distinct = distinct op-sequence hashes"),
+                shards=shards, require={"c12.diff_checks": 50000, "c12.deallocate": 2000, "c12.grow.moved": 1000, "c12.shrink.same_ptr": 1000, "c12.grow_zeroed.moved": 500},
+                assumptions=ASSUME_COMMON + ["std::vec::Vec on the global allocator is the reference for 'behaves exactly as with the global allocator'"])
